@@ -229,3 +229,29 @@ def order_operators(t0: str, t1: str, t2: str, t3: str) -> bool:
     return L(T['before'].evaluate(ctx())) == [i < j for i, j in pairs] and L(T['after'].evaluate(ctx())) == [i > j for i, j in pairs] \
         and L(T['is'].evaluate(ctx())) == [i == j for i, j in pairs] and L(T['root'].evaluate(ctx())) == [True] * 4 \
         and _idx(L(T['outer'].evaluate(ctx())), els) == outer and _idx(L(T['inner'].evaluate(ctx())), els) == inner
+
+
+# --- added after seeded-change review: fn:root on attribute and namespace nodes, also of childless elements --------------------
+
+T.update(parse_all({'root_attr': 'for $n in //@* return root($n) is root(/*)', 'root_ns': 'for $n in //namespace::* return root($n) is root(/*)',
+                    'count_attr': 'count(//@*)', 'attr_parent': 'for $n in //@* return $n/.. is (//*[@*])[1] or $n/.. is (//*[@*])[2] or $n/.. is (//*[@*])[3]'}))
+
+
+@ob(budget=300, bound='4-element tree r(x(y), z) with 0..2 attributes on x, y (childless) and z (childless), namespaces 0..1: root() of every attribute and namespace node is the tree root',
+    funcs=['elementpath/xpath_context.py:get_root', 'elementpath/xpath_nodes.py:ElementNode.iter_lazy', 'fn:root'])
+def root_of_attributes_and_namespaces(n1: int, n2: int, n3: int, nns: int) -> bool:
+    """
+    pre: 0 <= n1 <= 2 and 0 <= n2 <= 2 and 0 <= n3 <= 2 and 0 <= nns <= 1
+    post: _
+    """
+    els = _tree(['r', 'x', 'y', 'z'], False, False)
+    for e, n in ((els[1], n1), (els[2], n2), (els[3], n3)):
+        for i in range(n):
+            e.set('a%d' % i, 'v')
+    # always an ElementTree document: a bare pure-Python root element is not recognised like a C element (tool artefact, DESIGN §2)
+    src = ET.ElementTree(els[0])
+    ns = {'p%d' % i: 'u%d' % i for i in range(nns)}
+    ctx = lambda: XPathContext(src, namespaces=ns)   # noqa: E731
+    total = n1 + n2 + n3
+    return L(T['count_attr'].evaluate(ctx())) == [total] and L(T['root_attr'].evaluate(ctx())) == [True] * total \
+        and L(T['root_ns'].evaluate(ctx())) == [True] * (4 * (nns + 1)) and L(T['attr_parent'].evaluate(ctx())) == [True] * total
